@@ -1261,3 +1261,13 @@ Proof.
   destruct H as [a ->]. cbn [obind].
   destruct (IH fs (match snd a with Some c' => c' | None => c end)) as [rs ->]. eexists; reflexivity.
 Qed.
+
+Lemma files_transparent_lemma grow junk now ops :
+  grow_ok grow -> Forall op_small ops ->
+  files_run (fs_read grow junk) now [] [] ops = files_run fs_content now [] [] ops.
+Proof. intros G Hs. apply files_run_transparent; auto. intros p n Hl. discriminate. Qed.
+
+Lemma read_awaited_lemma grow junk legacy b cs max :
+  (forall guard b' rest, read_poll grow junk legacy guard b cs max None <> RCancelled b' rest) /\
+  read_poll grow junk legacy false b cs max None = read_poll grow junk legacy true b cs max None.
+Proof. split; [intros; apply awaited_never_cancelled|apply guard_irrelevant_when_awaited]. Qed.
